@@ -686,10 +686,6 @@ def compat_remove_whitespace_v3 : List String := [
   "return re.sub('\\\\s+', '', text, flags=re.UNICODE)"
 ]
 
-def curves_Curve_repr_ : List String := [
-  "return self.name"
-]
-
 /-- added with fix F15 (/repo 645034d): the message helper that renders oversized OID sub-identifiers in hexadecimal -/
 def der_oid_to_text : List String := [
   "if not isinstance(oid, (tuple, list))",
@@ -754,12 +750,6 @@ def ecdsa_digest_integer : List String := [
   "return string_to_int(sha1(int_to_string(m)).digest())"
 ]
 
-def ellipticcurve_Point_str_ : List String := [
-  "if self == INFINITY",
-  ".return 'infinity'",
-  "return '(%d,%d)' % (self.__x, self.__y)"
-]
-
 def ellipticcurve_Point_x : List String := [
   "return self.__x"
 ]
@@ -782,11 +772,6 @@ def keys_VerifyingKey_init_ : List String := [
   "self.curve = None",
   "self.default_hashfunc = None",
   "self.pubkey = None"
-]
-
-def keys_VerifyingKey_repr_ : List String := [
-  "pub_key = self.to_string('compressed')",
-  "return 'VerifyingKey.from_string({0!r}, {1!r}, {2})'.format(pub_key, self.curve, self.default_hashfunc().name)"
 ]
 
 def keys_VerifyingKey_eq_ : List String := [
